@@ -151,15 +151,50 @@ theorem decode_encode_gradient (cBase nBase shape spread nStops : UInt8) :
       ⟨cBase &&& 0x3f, nBase &&& 0x3f, shape &&& 0x01, spread &&& 0x03, nStops &&& 0x3f⟩ :=
   GenQ.decode_encode_gradient cBase nBase shape spread nStops
 
+/-- The same clauses on the RENDERER's register machine (`Renderer.step` for `setCSel`/`setNSel`/`setCReg`/
+    `setNReg`), for every number type: running the calls of a successful `SetGradient` — made with the
+    renderer's own selector read-backs, both `< 64` — makes no rasteriser call and leaves a state in which
+    CSEL and NSEL are what they were; CREG[CSEL] holds the gradient value `g`; CREG/NREG[(10+i) mod 64] hold
+    colour / offset of stop `i` (the registers `g` names: bases 10/10, `n` stops); NREG[4…9] = NREG[10−6…10−1]
+    hold the matrix `t.a0…t.a5` — exactly the six registers `initGradient` reads as `a…f`
+    (`Ivg.Props.C15.pix2grad_compose`), so "the general form uses the given matrix"; every other register and
+    everything else in the renderer state (`Rendered.others`) is unchanged. -/
+theorem setGradient_rendered {α β : Type} [Arith α] [Arith β] [Wide α β]
+    (arc : Ren.ArcFn α β) (posInf : α) (z : Ren.Renderer α β)
+    (hcs : z.cSel.toNat < 64) (hns : z.nSel.toNat < 64)
+    (shape spread : UInt8) (stops : List (α × RGBA)) (t : Aff3 α) (calls : List (Call α))
+    (h : setGradient z.cSel z.nSel shape spread stops t = .ok calls) :
+    let z' := (z.run arc posInf calls).1
+    let g := encodeGradient 10 10 shape spread (UInt8.ofNat stops.length)
+    (z.run arc posInf calls).2 = [] ∧
+    z'.cSel = z.cSel ∧ z'.nSel = z.nSel ∧ Rendered.others z' = Rendered.others z ∧
+    z'.cReg.get6 z.cSel = g ∧
+    (∀ i (hi : i < stops.length) (j : UInt8), j.toNat % 64 = (10 + i) % 64 →
+      z'.cReg.get6 j = stops[i].2 ∧ z'.nReg.get6 j = stops[i].1) ∧
+    (z'.nReg.get6 4 = t.a0 ∧ z'.nReg.get6 5 = t.a1 ∧ z'.nReg.get6 6 = t.a2 ∧
+     z'.nReg.get6 7 = t.a3 ∧ z'.nReg.get6 8 = t.a4 ∧ z'.nReg.get6 9 = t.a5) ∧
+    (∀ j : UInt8, j.toNat % 64 ≠ z.cSel.toNat → (∀ i, i < stops.length → (10 + i) % 64 ≠ j.toNat % 64) →
+      z'.cReg.get6 j = z.cReg.get6 j) ∧
+    (∀ j : UInt8, (j.toNat % 64 < 4 ∨ 9 < j.toNat % 64) → (∀ i, i < stops.length → (10 + i) % 64 ≠ j.toNat % 64) →
+      z'.nReg.get6 j = z.nReg.get6 j) :=
+  Rendered.setGradient_rendered arc posInf z hcs hns shape spread stops t calls h
+-- non-vacuity: a fresh renderer (selectors 0) and two stops
+example : (0 : UInt8).toNat < 64 ∧
+    ∃ calls, setGradient (α := ℚ) 0 0 0 1 [(0, RGBA.black), (1, RGBA.zero)] ⟨1, 0, 0, 0, 1, 0⟩ = .ok calls :=
+  ⟨by decide, _, (GenQ.setgradient_layout 0 0 0 1 _ _ (by decide) (by decide)).1⟩
+
 /-!
 ## Not proved in this file
 
-* Rounding: the geometry theorems are about the `ℚ` instance; no error bound for the float32 instance.
-* "the general form uses the given matrix" is visible in `setgradient_layout` (the six `setNReg` calls carry
-  `t.a0 … t.a5` unchanged); that the renderer then reads exactly these six registers as `a…f` and composes
-  them with the pixel-to-viewBox map is C15 (`Ivg.Props.C15.pix2grad_compose`).
-* The composition "run these calls through the decoder/renderer's register machine and look at the
-  register files" is stated here on the call list only; the selector semantics (incrementing forms) is C07.
+* Rounding: the geometry theorems are about the `ℚ` instance; no error bound for the float32 instance
+  (`SetCircularGradient` additionally rounds `1/sqrt` from float64 to float32).
+* The last link of "when rendered" — that the renderer, given the register state `setGradient_rendered`
+  describes, builds the gradient with these stops, shape, spread and matrix and samples it per the
+  specification — is `Ivg.Props.C15.gradient_at_spec`; the two theorems are not composed into one statement
+  here (the composition additionally needs the stops to satisfy `initGradient`'s validity checks:
+  premultiplied colours, offsets in `[0,1]`, strictly increasing).
+* `Color.RGBA()>>8` of the stop colours (conversion of a Go `color.Color` to 8-bit RGBA) happens before the
+  model's `setGradient` and is not modelled.
 -/
 
 end Ivg.Props.C19
@@ -170,4 +205,5 @@ end Ivg.Props.C19
   Ivg.Props.C19.too_many_stops, Ivg.Props.C19.csel_in_stop_range, Ivg.Props.C19.csel_clash_iff,
   Ivg.Props.C19.setGradient_errors, Ivg.Props.C19.errors_before_writes,
   Ivg.Props.C19.setgradient_layout, Ivg.Props.C19.decode_encode_gradient,
+  Ivg.Props.C19.setGradient_rendered,
   Ivg.Gen.Tie.drawOps_tie, Ivg.Gen.Tie.magic_tie, Ivg.Gen.Tie.errorStrings_tie]
